@@ -6,7 +6,7 @@ every DpPacketOut (port, frame serialised at event time) and every message the s
 operation, the exception class if the handler raised, and the port-stats reply at the end.
 Model side: lean/Drivers/C12.lean (Model/Actions.lean + the declarative Spec/ActionsSpec.lean).
 Oracle: an independent re-statement of the property on raw bytes (below: `spec_rewrite`, `expand`, counter sums)."""
-import struct, copy, re, os
+import struct, copy, re, os, json
 import common, poxenv
 from common import Check
 
@@ -140,7 +140,7 @@ class C12(Check):
     lean_targets = ["drv_c12"]
     driver = "drv_c12"
     theorems = ["Pox.C12.port_guards", "Pox.C12.flood_excludes_ingress", "Pox.C12.counters_exact", "Pox.C12.actions_spec",
-                "Pox.C12.checksums_ok", "Pox.C12.rx_spec", "Pox.C12.port_mod_spec",
+                "Pox.C12.checksums_ok", "Pox.C12.rx_spec", "Pox.C12.rx_obj_spec", "Pox.C12.port_mod_spec",
                 "Pox.C12.enqueue_d7_defect", "Pox.C12.table_recount_d8_defect", "Pox.C12.vlan_pcp_c121_defect"]
     anchors = [("pox/datapaths/switch.py", 362, 391), ("pox/datapaths/switch.py", 470, 545), ("pox/datapaths/switch.py", 579, 700),
                ("pox/datapaths/switch.py", 736, 757), ("pox/datapaths/switch.py", 855, 930)]
@@ -170,12 +170,29 @@ class C12(Check):
     coverage_cases = 4000
     search_budget = {"quick": 3000, "thorough": 30000}
 
+    ANCHOR_FUNCS = ("_rx_port_mod", "rx_packet", "_lookup_packet", "_set_port_config_bit", "_output_packet", "_process_actions_for_packet")
+
+    def _anchors_from_ast(self):
+        """line ranges of the anchored functions' bodies in the tree under test (the static ranges above drift with every fix)"""
+        import ast
+        path = os.path.join(common.REPO, "pox/datapaths/switch.py")
+        out = []
+        for cls in [n for n in ast.parse(open(path).read()).body if isinstance(n, ast.ClassDef) and n.name == "SoftwareSwitchBase"]:
+            for fn in cls.body:
+                if isinstance(fn, ast.FunctionDef) and (fn.name in self.ANCHOR_FUNCS or fn.name.startswith("_action_")):
+                    body = [b for b in fn.body if not (isinstance(b, ast.Expr) and isinstance(getattr(b, "value", None), ast.Constant))]
+                    if body: out.append(("pox/datapaths/switch.py", body[0].lineno, fn.end_lineno))
+        return out
+
     def setup(self):
+        try: self.anchors = self._anchors_from_ast() or self.anchors
+        except Exception: pass
         poxenv.boot()
         import swnet, pox.openflow.libopenflow_01 as of
         from pox.lib.addresses import EthAddr, IPAddr
         from pox.datapaths.switch import DpPacketOut
-        self.swnet, self.of, self.EthAddr, self.IPAddr, self.DpPacketOut = swnet, of, EthAddr, IPAddr, DpPacketOut
+        from pox.lib.packet.ethernet import ethernet
+        self.swnet, self.of, self.EthAddr, self.IPAddr, self.DpPacketOut, self.ethernet = swnet, of, EthAddr, IPAddr, DpPacketOut, ethernet
 
     # ------------------------------------------------------------------ implementation side
     def hw(self, no):
@@ -245,6 +262,10 @@ class C12(Check):
                 st, _, _ = node.send(of.ofp_flow_mod(command=of.OFPFC_ADD, match=m, priority=prio, actions=[self.mk_action(a) for a in op["acts"]]))
             elif k == "pktout":
                 st, _, _ = node.send(of.ofp_packet_out(data=bytes.fromhex(op["data"]), in_port=op["in_port"], actions=[self.mk_action(a) for a in op["acts"]]))
+            elif k == "rx" and op.get("nopd"):          # the packet object only (packet_data=None): rx_bytes and a miss use packet.pack()
+                try: sw.rx_packet(self.ethernet(bytes.fromhex(op["data"])), op["port"])
+                except Exception as e: st = "raise:" + type(e).__name__
+                node.drain()
             elif k == "rx":
                 st, _, _ = node.rx(bytes.fromhex(op["data"]), op["port"])
             elif k == "link":
@@ -395,10 +416,40 @@ class C12(Check):
                 for j, (g, e) in enumerate(zip(got, exp)):
                     if g != e:
                         return "op %d %s: output %d (%s) differs from the specification%s: got %s expected %s" % (i, where, j, g["k"], cls, g.get("data"), e.get("data"))
+        f = self._noop_check(case, obs)
+        if f: return f
         for p in obs["ports"]:
             t = tx.get(p["no"], [0, 0]); r = rx.get(p["no"], [0, 0])
             if [p["tx_p"], p["tx_b"]] != t: return "port %d tx counters %s but %s frames/bytes were transmitted" % (p["no"], [p["tx_p"], p["tx_b"]], t)
             if [p["rx_p"], p["rx_b"]] != r: return "port %d rx counters %s but %s frames/bytes were accepted from the wire" % (p["no"], [p["rx_p"], p["rx_b"]], r)
+        return None
+
+    def _noop_check(self, case, obs):
+        """SET_TP_* on a frame whose IPv4 payload is not TCP/UDP, and SET_NW_* / SET_TP_* on a frame that is not IPv4, are no-ops:
+        the same history without those actions must produce exactly the same log.  Needs no assumption on the frame (works for
+        frames whose lengths/checksums are not canonical), and does not involve the model."""
+        frames = [bytes.fromhex(op["data"]) for op in case["ops"] if op["op"] in ("pktout", "rx")]
+        if not frames or any(len(fr) < 14 for fr in frames): return None
+        # strip_vlan can bring a header behind a second tag into view: the premise must hold for every tag-stripped form too
+        forms = []
+        for fr in frames:
+            forms.append(fr)
+            while len(fr) >= 18 and fr[12:14] == b"\x81\x00":
+                fr = fr[:12] + fr[16:]; forms.append(fr)
+        locs = [Loc(fr) for fr in forms]
+        drop = set()
+        if all(not (L.ip and L.proto in (6, 17)) for L in locs): drop |= {"set_tp_src", "set_tp_dst"}
+        if all(not L.ip and L.type != 0x0800 for L in locs): drop |= {"set_nw_src", "set_nw_dst", "set_nw_tos", "set_tp_src", "set_tp_dst"}
+        if not drop or not any(a["a"] in drop for op in case["ops"] if "acts" in op for a in op["acts"]): return None
+        c2 = copy.deepcopy(case)
+        for op in c2["ops"]:
+            if "acts" in op: op["acts"] = [a for a in op["acts"] if a["a"] not in drop]
+        o2 = self.impl(c2)
+        if o2["exc"] is not None or o2["outs"] != obs["outs"] or o2["ports"] != obs["ports"]:
+            i = next((j for j, (a, b) in enumerate(zip(obs["outs"], o2["outs"])) if a != b), len(o2["outs"]))
+            used = sorted(set(a["a"] for op in case["ops"] if "acts" in op for a in op["acts"] if a["a"] in drop))
+            return "op %d: %s changed a frame that has no such header (no-op expected): with the actions %s, without %s" % (
+                i, "+".join(used), json.dumps(obs["outs"][i] if i < len(obs["outs"]) else None)[:300], json.dumps(o2["outs"][i] if i < len(o2["outs"]) else o2["exc"])[:300])
         return None
 
     def finding_key(self, case, obs, failure):
@@ -425,11 +476,15 @@ class C12(Check):
         if "outputs" in failure and "specification" in failure:
             if any(a["a"] in ("output", "enqueue") and a["port"] == P_TABLE for a in acts): return "outputs:port-set:output-TABLE"
             return "outputs:port-set"
+        if "no-op expected" in failure:
+            return "bytes:noop-action-changed-frame:" + failure.split(": ", 1)[1].split(" changed")[0]
         if "differs from the specification" in failure:
             if "[ip-first-fragment]" in failure: return "bytes:ip-first-fragment:l4-reserialised"
             if "[ethernet-trailer]" in failure: return "bytes:ethernet-trailer-dropped"
-            if any(a["a"] == "set_vlan_vid" and a["v"] > 4095 for a in acts): return "bytes:set_vlan_vid:out-of-range"
-            if any(a["a"] == "set_vlan_pcp" and a["v"] > 7 for a in acts): return "action:set_vlan_pcp:out-of-range:struct.error"
+            mo = re.search(r"got ([0-9a-f]+) expected ([0-9a-f]+)", failure)
+            tci_only = bool(mo) and len(mo.group(1)) == len(mo.group(2)) and mo.group(1)[:28] == mo.group(2)[:28] and mo.group(1)[32:] == mo.group(2)[32:]
+            if tci_only and any(a["a"] == "set_vlan_vid" and a["v"] > 4095 for a in acts): return "bytes:set_vlan_vid:out-of-range"
+            if tci_only and any(a["a"] == "set_vlan_pcp" and a["v"] > 7 for a in acts): return "action:set_vlan_pcp:out-of-range:struct.error"
             rw = sorted(set(k for k in ks if k in REWRITES))
             return "bytes:" + ("+".join(rw) if rw else "no-rewrite")
         if "port_mod" in failure: return "port_mod:" + re.sub(r"[^a-zA-Z_ ]+", "", failure.split(":", 1)[1]).strip().replace(" ", "-")[:40]
@@ -458,7 +513,7 @@ class C12(Check):
         """(frame bytes, shape name, canon, wf).  canon: the byte-level oracle applies (lengths and checksums of the input are
         valid, so that recomputing them is the identity); wf: the frame parses into a well-formed chain of the modelled
         classes, so the Lean specification must agree with the code as well"""
-        shape = shape or rng.choice(["tcp", "tcp", "udp", "udp", "icmp", "arp", "other", "ipother", "tcpopt", "ipopt"])
+        shape = shape or rng.choice(["tcp", "tcp", "udp", "udp", "icmp", "icmperr", "arp", "other", "ipother", "tcpopt", "ipopt"])
         dst = bytes.fromhex(rng.choice(self.MACS)); src = bytes.fromhex(rng.choice(self.MACS[:2] + ["0a0b0c0d0e0f"]))
         if rng.random() < 0.1: dst = bytes(rng.randint(0, 255) for _ in range(6))
         tag = None
@@ -484,6 +539,16 @@ class C12(Check):
             t = rng.choice([8, 0, 13, 3])
             rest = struct.pack("!HH", rng.randint(0, 65535), rng.randint(0, 65535)) + (data if t != 3 else data[:20])
             pay, et = ip_packet(ips, ipd, 1, icmp_msg(t, rng.choice([0, 1]), rest), **ipkw), 0x0800
+        elif shape in ("icmperr", "icmperr-udp", "icmperr-tcp"):
+            # ICMP destination unreachable / time exceeded quoting a *complete* UDP or TCP datagram (>= 28 bytes, so that
+            # pox parses the quotation in depth: icmp / unreach / ipv4 / udp).  SET_TP_* must not touch the quoted ports.
+            inner_udp = shape == "icmperr-udp" or (shape == "icmperr" and rng.random() < 0.6)
+            qd = rng.choice([b"", b"", data[:8], data[:13]])
+            if inner_udp: inner = ip_packet(ipd, ips, 17, udp_seg(ipd, ips, port(), port(), qd), ident=rng.randint(0, 65535), ttl=rng.choice([1, 63]))
+            else: inner = ip_packet(ipd, ips, 6, tcp_seg(ipd, ips, port(), port(), rng.randint(0, 2 ** 32 - 1), 0, 0, 2, rng.randint(0, 65535), 0, b"", qd),
+                                    ident=rng.randint(0, 65535), ttl=rng.choice([1, 63]))
+            t = rng.choice([3, 11])
+            pay, et = ip_packet(ips, ipd, 1, icmp_msg(t, rng.choice([0, 1, 3]), (bytes(4) if t == 11 else struct.pack("!HH", 0, rng.choice([0, 1400]))) + inner), **ipkw), 0x0800
         elif shape == "ipopt":
             opt = rng.choice([bytes([1, 1, 1, 0]), bytes([7, 7, 4, 0, 0, 0, 0, 0]), bytes([0x94, 4, 0, 0])])
             pay, et = ip_packet(ips, ipd, 17, udp_seg(ips, ipd, port(), port(), data), options=opt, **ipkw), 0x0800
@@ -517,8 +582,8 @@ class C12(Check):
             fr = refresh(fr[:o] + ip + seg); can = True
         elif v == "trunc": fr = fr[:max(14, len(fr) - rng.randint(1, 30))]
         elif v == "unreach":
-            inner = ip_packet(ipd, ips, 17, udp_seg(ipd, ips, 1000, 2000, b"abcdefgh"))
-            fr = eth_frame(dst, src, 0x0800, ip_packet(ips, ipd, 1, icmp_msg(3, 1, bytes(4) + inner)), tag)
+            inner = ip_packet(ipd, ips, 17, udp_seg(ipd, ips, 1000, 2000, b"abcdefghijklmnop"))[:28]
+            fr = eth_frame(dst, src, 0x0800, ip_packet(ips, ipd, 1, icmp_msg(rng.choice([3, 11]), 1, bytes(4) + inner)), tag)
         elif v == "qinq": fr = eth_frame(dst, src, 0x8100, struct.pack("!HH", rng.randint(0, 0xffff), et) + pay, rng.randint(0, 0xffff))
         return fr, shape + "/" + v, can, wf
 
@@ -620,6 +685,25 @@ class C12(Check):
         for c in (PC_NO_RECV, PC_NO_RECV_STP, PC_NO_RECV | PC_NO_RECV_STP):
             cases.append({"ops": self.portmods([c, None, None]) + [{"op": "flow", "in_port": None, "acts": [out1(P_FLOOD)]},
                                   {"op": "rx", "port": 1, "data": stp}, {"op": "rx", "port": 1, "data": tcp}], "wf": True, "canon": True})
+        # (g) ICMP destination-unreachable / time-exceeded quoting a complete UDP / TCP datagram (>= 28 bytes: pox parses the quotation in
+        #     depth), tagged and untagged: SET_TP_* is a no-op on them, SET_NW_* rewrites the outer header only
+        for shape in ("icmperr-udp", "icmperr-tcp"):
+            for tagged in (False, True):
+                for k in range(3):
+                    while True:
+                        fr = self.g_frame(rng, shape)[0]
+                        if (be16(fr, 12) == 0x8100) == tagged: break
+                    fr = fr.hex()
+                    for a, b in (({"a": "set_tp_src", "v": 7777}, {"a": "set_tp_dst", "v": 81}), ({"a": "set_tp_dst", "v": 7777}, {"a": "set_nw_src", "v": 0xc0a80505}),
+                                 ({"a": "set_nw_dst", "v": 0x01020304}, {"a": "set_tp_src", "v": 1}), ({"a": "set_nw_src", "v": 0x0a090909}, {"a": "set_nw_dst", "v": 0x0a000001})):
+                        cases.append({"ops": [{"op": "pktout", "in_port": 1, "data": fr, "acts": [out1(2), a, out1(3), b, out1(P_FLOOD), out1(P_CONTROLLER)]}], "wf": True, "canon": True})
+                    cases.append({"ops": [{"op": "flow", "in_port": None, "acts": [{"a": "set_tp_dst", "v": 7777}, out1(P_FLOOD), {"a": "set_tp_src", "v": 2}, {"a": "strip_vlan"}, out1(P_IN_PORT)]},
+                                          {"op": "rx", "port": 2, "data": fr}], "wf": True, "canon": True})
+        # (h) rx_packet without packet_data: table hit, miss (packet-in built from packet.pack()), NO_RECV, every frame shape
+        for key, fr in sorted(frames.items()):
+            cases.append({"ops": self.portmods([None, None, PC_NO_RECV]) + [{"op": "setconfig", "flags": 0, "miss": 30}, {"op": "flow", "in_port": 1, "acts": [{"a": "set_vlan_vid", "v": 9}, out1(P_FLOOD)]},
+                                  {"op": "rx", "port": 1, "data": fr, "nopd": True}, {"op": "rx", "port": 2, "data": fr, "nopd": True}, {"op": "rx", "port": 3, "data": fr, "nopd": True},
+                                  {"op": "rx", "port": 7, "data": fr, "nopd": True}], "wf": True, "canon": True})
         # (f) the witnesses of Properties/C12.lean (`enqueue_d7_defect`, `table_recount_d8_defect`, `vlan_pcp_c121_defect`) replayed on
         #     the implementation: four ports, port 2 NO_FLOOD, port 3 NO_FWD, one entry for in_port 3, a 16-byte frame
         small = "66778899aabb00112233445588b50102"
@@ -656,6 +740,7 @@ class C12(Check):
                 for _ in range(rng.choice([1, 2])):
                     fr2 = fr if rng.random() < 0.5 else self.g_frame(rng, canon=True)[0]
                     ops.append({"op": "rx", "port": rng.choice([1, 2, 3, 1, 2, 3, 4]), "data": fr2.hex()})
+                    if canon and rng.random() < 0.3: ops[-1]["nopd"] = True
             if rng.random() < 0.2:
                 ops.append({"op": "portmod", "port": rng.choice([1, 2, 3, 4]), "hw": self.hw(rng.randint(1, 3)).hex() if rng.random() < 0.8 else "0000000000aa",
                             "config": rng.randint(0, 2 ** 32 - 1), "mask": rng.choice([0x7f, 0xffffffff, rng.randint(0, 255), 1 << rng.randint(0, 31)])})
